@@ -236,10 +236,7 @@ func (m *Monitor) obsKill(s *step, rl *Realm, me *Sess, args []any, kw map[strin
 		return
 	}
 	reason, _ := canon.AsStr(kw["reason"])
-	if reason != "" && !ValidURI(reason, false, Exact) {
-		m.metaError(s, "MT8", ErrInvalidURI)
-		return
-	}
+	badReason := reason != "" && !ValidURI(reason, false, Exact)
 	if reason == "" {
 		reason = "wamp.close.normal"
 	}
@@ -255,7 +252,11 @@ func (m *Monitor) obsKill(s *step, rl *Realm, me *Sess, args []any, kw map[strin
 			}
 		}
 		if len(victims) == 0 {
-			m.metaError(s, "MT4", ErrNoSuchSession)
+			if badReason { // both refusals apply: either error is acceptable
+				m.metaError(s, "MT4", "")
+			} else {
+				m.metaError(s, "MT4", ErrNoSuchSession)
+			}
 			return
 		}
 	case "wamp.session.kill_by_authid", "wamp.session.kill_by_authrole":
@@ -277,6 +278,17 @@ func (m *Monitor) obsKill(s *step, rl *Realm, me *Sess, args []any, kw map[strin
 			if ss.Idx != me.Idx {
 				victims = append(victims, ss)
 			}
+		}
+	}
+	if badReason {
+		m.metaError(s, "MT8", ErrInvalidURI)
+		return
+	}
+	// several sessions ending at once leave in an arbitrary order: what the
+	// victims themselves still see of each other's departure is not predictable
+	if len(victims) > 1 {
+		for _, v := range victims {
+			v.dying = true // stays set: the session is gone after this step
 		}
 	}
 	m.metaResult(s, "MT8", "kill result", func(a []any, _ map[string]any) string {
